@@ -8,6 +8,7 @@ mod p_hex;
 mod p_misc;
 mod p_rx;
 mod p_sec;
+mod p_cli;
 mod p_ts;
 use fw::*;
 
@@ -27,6 +28,7 @@ fn exec(line: &str, model: &mut Model) -> Option<Exec> {
         "ts.run" => p_ts::exec(line, model),
         "ffi" => p_ffi::exec(line, model),
         _ if op.starts_with("sec.") => p_sec::exec(line, model),
+        _ if op.starts_with("cli.") => p_cli::exec(line, model),
         _ => None,
     }
 }
@@ -58,7 +60,7 @@ fn main() {
         _ => "distinct op lines",
     };
     let mut rep = Report::new(&prop, rule);
-    let mut batch: Vec<(String, String, bool)> = Vec::new();
+    let mut batch: Vec<(String, String, bool, Option<String>)> = Vec::new();
     let mut emit = |ctx: &mut Ctx, rep: &mut Report, line: String| {
         match exec(&line, &mut ctx.model) {
             Some(e) => {
@@ -68,7 +70,7 @@ fn main() {
                 let cls = e.imp.split(' ').next().unwrap_or("").to_string();
                 rep.count(&format!("{}:{}", line.split(' ').next().unwrap_or(""), cls));
                 for t in &e.tags { rep.count(t); }
-                batch.push((line, e.imp, e.nontrivial));
+                batch.push((line, e.imp, e.nontrivial, e.model_line));
             }
             None => {
                 rep.count("harness-bad-op");
@@ -104,6 +106,7 @@ fn main() {
             "C01" | "C02" | "C03" | "C04" | "C15" => p_codec::generate(&prop, &mut ctx, &mut rep, &mut emit),
             "C14" => p_ffi::generate(&mut ctx, &mut rep, &mut emit),
             "C16" => p_sec::generate(&mut ctx, &mut rep, &mut emit),
+            "C20" => p_cli::generate(&mut ctx, &mut rep, &mut emit),
             "C09" => p_ts::generate(&mut ctx, &mut rep, &mut emit),
             "C05" | "C06" | "C19" => p_rx::generate(&prop, &mut ctx, &mut rep, &mut emit),
             "C07" | "C08" | "C10" | "C11" | "C12" | "C13" | "C17" => p_misc::generate(&prop, &mut ctx, &mut rep, &mut emit),
